@@ -35,7 +35,7 @@ TECHNIQUE = "property-based testing (Hypothesis): model-based oracle over genera
 
 
 def cases(tier):
-    return 3200 if tier == "quick" else 320000
+    return 3200 if tier == "quick" else 120000
 
 
 def strategy(hazards):
